@@ -1009,7 +1009,7 @@ func c11Scenarios(c *mon.Ctx) {
 	late.SetConfiguration(cfgBad)
 	check(late, docBad, "filtered registry given an inapplicable document")
 	check(g, docB, "global registry while a filtered registry holds an inapplicable document")
-	sub, err := late.Filter(lint.FilterOptions{ExcludeNames: []string{"e_ca_is_ca"}})
+	sub, err := late.Filter(lint.FilterOptions{ExcludeNames: []string{someCertLint()}})
 	if err == nil {
 		check(sub, docBad, "registry filtered from one that holds an inapplicable document (inherits it)")
 	}
